@@ -15,7 +15,7 @@ META = {
     'text': 'For every element of the grammar (14 typed scalars, SSTRING/STRING, IPADDR/IFACEADDRS, EPATH in its plain/padded/single/route forms with every segment kind and width, '
             'status with extended words, typed data, every Logix / Object / Message Router (bundle) / Connection Manager request and reply, the Unconnected Send wrapper, CPF with every item '
             'type, register / send_data / list replies / legacy, and whole encapsulated frames) seeded boundary-biased field dictionaries are produced by the real code and by an independent '
-            'encoder; the bytes must be equal, the real parser must recover every encoded field, re-producing the parse must regenerate the bytes, and the independent decoder must agree. '
+            'encoder; the bytes must be equal, the real parser must recover every encoded field, re-producing the parse must regenerate the bytes, the independent decoder must agree, and a message object edited in place after it was produced once must encode exactly like a fresh object with the same values (produce is a function of the current field values). '
             'Held on the generated cases; values outside the generators are not covered.',
     'note': 'Trusts vlib/refcodec.py (written from the layout tables; every disagreement with cpppo is triaged by hand against the specification). Floats compare by bit pattern; BOOL true is 0xFF.',
 }
@@ -26,7 +26,7 @@ ASSUMPTIONS = ['canonical encodings only (declared lengths equal actual lengths)
 KINDS = ['scalar', 'string', 'ipaddr', 'epath', 'status', 'typed_data', 'logix_request', 'logix_reply', 'object_request', 'object_reply',
          'multiple_request', 'multiple_reply', 'forward_open', 'forward_open_reply', 'forward_close', 'forward_close_reply',
          'unconnected_send', 'cpf', 'command', 'frame']
-REQUIRED = ['kind:' + k for k in KINDS] + ['monitor:bytes-equal', 'monitor:fields-recovered', 'monitor:regenerated', 'monitor:ref-decoded',
+REQUIRED = ['kind:' + k for k in KINDS] + ['monitor:bytes-equal', 'monitor:fields-recovered', 'monitor:regenerated', 'monitor:reproduce-after-edit', 'monitor:ref-decoded',
                                            'epath:extended-port', 'epath:address-link', 'epath:32bit-element', 'epath:odd-symbolic', 'string:odd-length',
                                            'status:extended', 'forward_open:large', 'unconnected_send:odd-length']
 TIMEOUT = {'quick': 300, 'thorough': 1800}
@@ -733,6 +733,48 @@ def one_case(env, kind, rng):
     except Exception as exc:
         ctx.violation('regenerate-raises:' + kind, '%s %s: producing the parsed message raised %r' % (kind, label, exc), wit)
         return
+    # (5) produce is a function of the current field values: the same message object, edited in place after it was produced once, must
+    #     encode exactly like a fresh object holding the same values (whatever a first produce leaves behind in the object must not
+    #     be mistaken for input later)
+    if isinstance(f, dict):
+        leaves = []
+
+        def walk(o, path):
+            if isinstance(o, dict):
+                for k, v in o.items():
+                    walk(v, path + (k,))
+            elif isinstance(o, list):
+                for i, v in enumerate(o):
+                    walk(v, path + (i,))
+            elif isinstance(o, int) and not isinstance(o, bool) and path and path[-1] not in ('input', 'type_id'):      # type_id selects how an item's .input is read: not an in-place value edit
+                leaves.append(path)
+        walk(f, ())
+        if leaves:
+            try:
+                d = env.dd(copy.deepcopy(f))
+                real_produce(d)
+                f2 = copy.deepcopy(f)
+                for path in rng.sample(leaves, min(len(leaves), rng.choice([1, 1, 2, 3]))):
+                    o2, od = f2, d
+                    for k in path[:-1]:
+                        o2, od = o2[k], od[k]
+                    o2[path[-1]] = o2[path[-1]] ^ 1
+                    od[path[-1]] = o2[path[-1]]
+                try:
+                    fresh = bytes(real_produce(env.dd(copy.deepcopy(f2))))
+                except Exception:
+                    fresh = None
+                    ctx.count('reproduce:edit-not-producible')
+                if fresh is not None:
+                    reused = bytes(real_produce(d))
+                    ctx.count('monitor:reproduce-after-edit')
+                    if reused != fresh:
+                        ctx.violation('reproduce-after-edit-differs:' + kind, '%s %s: after editing %d field(s) of an already produced message in place, produce gives %s..., a fresh message '
+                                      'with the same values gives %s...' % (kind, label, len(f2) and 1, reused[:40].hex(), fresh[:40].hex()), dict(wit, edited=repr(f2)[:2000]))
+                        return
+            except Exception as exc:
+                ctx.violation('reproduce-after-edit-raises:' + kind, '%s %s: %r' % (kind, label, exc), wit)
+                return
     # (4) oracle honesty
     if refdec is not None:
         try:
